@@ -111,3 +111,44 @@ def describe_labware(o, model, describe):
     else:
         expr = f"Labware({name!r}, {R}, {C}, min_volume={float(mn)!r}, max_volume={float(mx)!r}, initial_volumes={vols!r})"
     return {"t": "expr", "v": expr}
+
+
+def sym_worklist(ex, cls="EvoWorklist", diti_mode=False, auto_split=True, max_volume="real", filepath=None, tag="wl"):
+    """A worklist object whose record list is an arbitrary (symbolic) list of non-empty strings."""
+    modname = {"BaseWorklist": "robotools.worklists.base", "EvoWorklist": "robotools.evotools.worklist",
+               "FluentWorklist": "robotools.fluenttools.worklist"}[cls]
+    o = Obj(cls, {"__class__": classv(ex, modname, cls)})
+    n0 = z3.Int(f"{tag}_n0")
+    rec = z3.Function(f"{tag}_rec", z3.IntSort(), z3.StringSort())
+    q = z3.Int("wf_q")
+    ex.p.assume(n0 >= 0)
+    ex.p.assume(z3.ForAll([q], z3.Length(rec(q)) > 0))
+    o.fields["__records__"] = SeqV("list", [Blk(n0, lambda i: Sym(rec(_t(i)), "str"))])
+    if max_volume == "real":
+        mv = Sym(z3.Real(f"{tag}_max_volume"), "real")
+        ex.p.assume(mv.t > 0)
+    elif max_volume == "int":
+        mv = Sym(z3.Int(f"{tag}_max_volume"), "int")
+        ex.p.assume(mv.t > 0)
+    else:
+        mv = max_volume
+    o.fields["max_volume"] = mv
+    o.fields["auto_split"] = auto_split
+    o.fields["diti_mode"] = diti_mode
+    o.fields["_filepath"] = filepath
+    o.fields["__ghost__"] = {"n0": n0, "rec": rec, "cls": cls}
+    o.fields["__native__"] = lambda model, describe, o=o: describe_worklist(o, model, describe)
+    return o
+
+
+def describe_worklist(o, model, describe):
+    from . import prove
+
+    g = o.fields["__ghost__"]
+    n0 = max(0, min(int(prove.model_value(model, g["n0"])), 6))
+    recs = [prove.model_value(model, g["rec"](z3.IntVal(i))) for i in range(n0)]
+    mv = o.fields["max_volume"]
+    mvv = prove.model_value(model, mv.t) if isinstance(mv, Sym) else mv
+    mvs = repr(float(mvv)) if not isinstance(mvv, int) else repr(mvv)
+    expr = f"_mk_wl({g['cls']}(max_volume={mvs}, auto_split={o.fields['auto_split']!r}, diti_mode={o.fields['diti_mode']!r}), {recs!r})"
+    return {"t": "expr", "v": expr}
